@@ -5,7 +5,7 @@ D=$(realpath "$1"); ID=$(basename "$D"); WT=/tmp/sw/verify-$ID
 mkdir -p /tmp/sw; git -C /repo worktree remove --force $WT 2>/dev/null; rm -rf $WT
 git -C /repo worktree add -q --detach $WT HEAD || exit 9
 cd $WT
-sed "s#/tmp/wt/C[0-9]*#$WT#g" $D/demo.py > $WT/.demo.py
+cp $D/demo.py $WT/.demo.py; export VERIF_REPO=$WT
 /venv/bin/python .demo.py > .demo_clean.log 2>&1; clean=$?
 if ! git apply $D/patch.diff 2> .apply.log; then echo "$ID APPLY-FAILED $(head -c 200 .apply.log)"; cd /; git -C /repo worktree remove --force $WT; exit 3; fi
 /venv/bin/python .demo.py > .demo_patched.log 2>&1; patched=$?
